@@ -225,8 +225,8 @@ def coq_case(rec):
         if isinstance(a, int):
             ia, ib = list(range(rank - a, rank)), list(range(a))
         else:
-            ia = [ax(A['labels'], x, rank) for x in a[0]]
-            ib = [ax(B['labels'], x, len(B['legs'])) for x in a[1]]
+            ia = [ax(A['labels'], x, rank) for x in npc_gen.as_list(a[0])]
+            ib = [ax(B['labels'], x, len(B['legs'])) for x in npc_gen.as_list(a[1])]
         if None in ia or None in ib:
             return None
         if len(ia) == rank and len(ib) == len(B['legs']):
